@@ -252,7 +252,18 @@ def outer_class_guess(v, a):
 
 
 ERR = {"arg": "wrong-arg-types", "ret": "bad-return-type",
-       "asg": "annotation-type-mismatch"}
+       "asg": "annotation-type-mismatch", "argkw": "wrong-arg-types",
+       "argstar": "wrong-arg-types", "argdstar": "wrong-arg-types",
+       "argmeth": "wrong-arg-types"}
+# argument-site variants: keyword-only parameter, *args, **kwargs (functions
+# none of whose positional parameters is annotated) and a method parameter
+ARG_VARIANTS = {
+    "arg": ("def %s(x: %s): pass", "%s(%s)"),
+    "argkw": ("def %s(*, key: %s): pass", "%s(key=%s)"),
+    "argstar": ("def %s(*args: %s): pass", "%s(%s)"),
+    "argdstar": ("def %s(**kw: %s): pass", "%s(k=%s)"),
+    "argmeth": ("class %s:\n  def m(self, a, x: %s): pass", "%s().m(0, %s)"),
+}
 
 
 def check_module(ctx, rows):
@@ -262,14 +273,14 @@ def check_module(ctx, rows):
   fn_for = {}
   for site, a, v in rows:
     at = render(a)
-    if site == "arg":
-      if at not in fn_for:
-        fn_for[at] = "a%d" % len(fn_for)
-        lines.append("def %s(x: %s): pass" % (fn_for[at], at))
+    if site in ARG_VARIANTS:
+      if (site, at) not in fn_for:
+        fn_for[(site, at)] = "a%d" % len(fn_for)
+        lines += (ARG_VARIANTS[site][0] % (fn_for[(site, at)], at)).split("\n")
   for i, (site, a, v) in enumerate(rows):
     at = render(a)
-    if site == "arg":
-      lines.append("%s(%s)" % (fn_for[at], v))
+    if site in ARG_VARIANTS:
+      lines.append(ARG_VARIANTS[site][1] % (fn_for[(site, at)], v))
     elif site == "ret":
       lines.append("def r%d() -> %s: return %s" % (i, at, v))
     else:
@@ -318,7 +329,7 @@ def check_module(ctx, rows):
                 "%s site: value %s IS a member of %s but pytype reports %s" %
                 (site, vtext, at, ERR[site]), case)
     if not m and not flagged:
-      if site == "arg" and vtext in HETEROGENEOUS:
+      if site in ARG_VARIANTS and vtext in HETEROGENEOUS:
         ctx.event("excluded:union-typed-argument-leniency")
         continue
       sig = "violation-missed:%s:%s" % (site, shape)
@@ -340,10 +351,16 @@ def tuple_tree(a):
 
 def all_rows(deep):
   rows = []
-  for a in annotations(deep):
+  anns = annotations(deep)
+  for a in anns:
     for site in ("arg", "ret", "asg"):
       for v in VALUES:
         rows.append((site, a, v))
+  # the argument-site variants on a representative slice of annotations
+  for i, a in enumerate(anns):
+    site = ("argkw", "argstar", "argdstar", "argmeth")[i % 4]
+    for v in VALUES:
+      rows.append((site, a, v))
   return rows
 
 
